@@ -117,19 +117,27 @@ class FakeSock(object):
 
     def send(self, data):
         oc = self.fabric.send_outcomes.popleft() if self.fabric.send_outcomes else "ok"
+        if oc == "ok" and self.kind == "connecting":
+            oc = "eagain"
+        elif oc == "ok" and (self.wire is None or self.closed):
+            oc = "epipe"
         self.fabric.sends.append((self.owner, self.sid, oc))
         if oc == "fail":
             raise OSError(_errno.ECONNRESET, "reset")
-        if self.kind == "connecting":
+        if oc == "eagain":
             raise OSError(_errno.EAGAIN, "again")        # Linux: send() on a SYN_SENT non-blocking socket
-        if self.wire is None or self.closed:
+        if oc == "epipe":
             raise OSError(_errno.EPIPE, "pipe")
         self.wire.inflight[self.side].append(bytes(data))
         return len(data)
 
     def recv(self, n):
         if self.rx:
-            return self.rx.popleft()
+            head = self.rx.popleft()
+            if len(head) > n:         # at most one receive buffer per call
+                self.rx.appendleft(head[n:])
+                head = head[:n]
+            return head
         if self.rst:
             raise OSError(_errno.ECONNRESET, "reset")
         if self.eof:
@@ -311,7 +319,8 @@ class World(object):
                 self.conn_objs.append([])
                 self.view.append(set())
                 conf = self.mods["config"].SyncObjConf(connectionRetryTime=retry / TU, connectionTimeout=timeout / TU,
-                                                       raftMinTimeout=0.25, raftMaxTimeout=0.5, bindRetryTime=1.0)
+                                                       raftMinTimeout=0.25, raftMaxTimeout=0.5, bindRetryTime=1.0,
+                                                       recvBufferSize=512)
                 so = DummySyncObj(conf)
                 self.sobjs.append(so)
                 self.fabric.cur = i
@@ -520,6 +529,8 @@ def split_frames(chunk):
     i = 0
     while i + 4 <= len(chunk):
         l = struct.unpack("i", chunk[i:i + 4])[0]
+        if l < 0 or i + 4 + l > len(chunk):
+            break                     # incomplete tail: stays in the read buffer
         res.append(_pickle.loads(zlib.decompress(chunk[i + 4:i + 4 + l])))
         i += 4 + l
     return res
@@ -712,8 +723,9 @@ class Sim(World):
         self.cov["poll_idle"] += 1
         return [(i, "pollok %d %d 0 %d" % (i, cid, 1 if imm_fail and pj is not None else 0), out)]
 
-    def a_deliver(self, w, side, k=99, reply_fail=False, imm_fail=False):
-        """Move up to k in-flight items of direction `side` of wire w to the receiving socket and fire READ."""
+    def a_deliver(self, w, side, k=99, reply_fail=False, imm_fail=False, nbytes=None):
+        """Move up to k in-flight items of direction `side` of wire w to the receiving socket and fire READ.
+        nbytes: slow link - only the first nbytes of the head chunk arrive now (a fragment of a frame)."""
         dst = w.ends[1 - side]
         q = w.inflight[side]
         if not q:
@@ -723,6 +735,15 @@ class Sim(World):
         if any(dst in l.acceptq for l in self.fabric.listeners.values()):
             return None               # still in the accept backlog: the data waits in the kernel
         moved = []
+        if nbytes is not None:
+            if not isinstance(q[0], bytes) or len(q[0]) <= nbytes:
+                nbytes = None
+                k = 1
+            else:
+                moved.append(q[0][:nbytes])
+                q[0] = q[0][nbytes:]
+                k = 0
+                self.cov["deliver.fragment"] += 1
         while q and k > 0:
             k -= 1
             it = q.popleft()
@@ -743,9 +764,12 @@ class Sim(World):
             self.cov["deliver.noconn"] += 1
             return []
         # complete frames left in the read buffer by an earlier event that ended in an exception come first
-        msgs = split_frames(self.conn_objs[i][cid]._TcpConnection__readBuffer)
-        if msgs:
+        buffered = self.conn_objs[i][cid]._TcpConnection__readBuffer
+        if split_frames(buffered):
             self.cov["deliver.leftover"] += 1
+        if buffered and not split_frames(buffered):
+            self.cov["deliver.continues-partial-frame"] += 1
+        msgs = []
         term = None
         for it in moved:
             if it is None:
@@ -757,7 +781,8 @@ class Sim(World):
                 term = "rst"
             else:
                 dst.rx.append(it)
-                msgs.extend(split_frames(it))
+        # complete frames in what the connection will hold after this read (bytes already buffered + new ones)
+        msgs = split_frames(bytes(buffered) + b"".join(x for x in moved if isinstance(x, bytes)))
         conn = self.conn_objs[i][cid]
         pj = self._peer_index(dst)
         f = 1 if imm_fail and pj is not None else 0
@@ -774,6 +799,11 @@ class Sim(World):
                 b = self.bound_node(cobj)
                 if b is not None and b[0] == "ro":
                     live_ro.add(b[1])
+        prev_heard = getattr(dst, "heard", None)
+        bound = self.bound_node(conn)
+        in_unknown = conn in self.transports[i]._unknownConnections
+        honest = origin is not None and origin[0] in ("tcp", "ro") and \
+            not (origin[0] == "tcp" and (origin[1], i) in self.tainted)
         if term is None:
             dst.heard = self.fabric.now   # something arrived from the peer
         # coverage: the first message names a member whose registered (closed) object last lived on the descriptor
@@ -797,6 +827,35 @@ class Sim(World):
                 "what": "transport %d: data written by the peer arrived on the socket (descriptor %d) of CONNECTED "
                         "connection object %d, but the poller has no subscription for that descriptor: nothing the peer "
                         "sends is delivered" % (i, dst.fd, cid)})
+        now = self.fabric.now
+        if bound is not None and was_connected and term is None and prev_heard is not None and \
+                now - prev_heard <= self.timeout and r is not False:
+            if conn._TcpConnection__socket is not dst:
+                self.extra_viol.append({
+                    "signature": "transport.timeout:disconnected-while-data-keeps-arriving",
+                    "what": "transport %d closed the connection of %r on a read event at t=%d although bytes last arrived "
+                            "on it at t=%d (gap %d <= connectionTimeout %d): a message that takes longer than the timeout "
+                            "to transfer can never get through" % (i, bound, now, prev_heard, now - prev_heard,
+                                                                  self.timeout)})
+            else:
+                got = [o[2] for o in out if o[0] == "deliver"]
+                if got != mks:
+                    self.extra_viol.append({
+                        "signature": "transport.deliver:complete-message-not-delivered-once",
+                        "what": "transport %d, connection of %r: complete frames %r were readable, delivered %r"
+                                % (i, bound, mks, got)})
+        if honest and any(o[0] == "raised" for o in out):
+            self.extra_viol.append({
+                "signature": "transport.poll:exception-escapes-event-loop",
+                "what": "transport %d: %s escapes the poll callback while reading what member %r sent (frames %r)"
+                        % (i, [o[1] for o in out if o[0] == "raised"], origin, mks[:2])})
+        if honest and in_unknown and term is None and mks:
+            want = ["addr", origin[1]] if origin[0] == "tcp" else ["readonly"]
+            if mks[0] != want:
+                self.extra_viol.append({
+                    "signature": "transport.handshake:first-frame-not-the-address",
+                    "what": "transport %d: the first frame on a connection dialled by %r is %r, not its address"
+                            % (i, origin, mks[0])})
         for o in out:
             if o[0] == "roConn" and o[1][1] in live_ro:
                 # C18 / C14: ids of read-only nodes are identities; two connected ones never share one
@@ -832,16 +891,45 @@ class Sim(World):
             return ["ro"] if o in self.readonly else ["tcp", o]
         return ["tcp", dst.dest[1] - 4000]
 
-    def a_send(self, i, key, payload, send_fail=False, imm_fail=False):
+    def a_send(self, i, key, payload, send_fail=False, imm_fail=False, size=0):
         t = self.transports[i]
         node = self.node(key[1]) if key[0] == "tcp" else self.mods["node"].Node(str(key[1]))
         before = len(self.fabric.socks)
-        r, out = self.call(i, lambda: t.send(node, {"k": payload}),
+        msg = {"k": payload}
+        if size:
+            import random as _random
+            msg["pad"] = _random.Random(payload).randbytes(size)   # incompressible: the frame really is that large
+            self.cov["send.big"] += 1
+        conn0 = t._connections.get(node)
+        sk0 = conn0._TcpConnection__socket if conn0 is not None else None
+        st0 = conn0.state if conn0 is not None else None
+        heard0 = getattr(sk0, "heard", None)
+        r, out = self.call(i, lambda: t.send(node, msg),
                            imm_fail=[key[1]] if imm_fail and key[0] == "tcp" else (),
                            send_outcomes=["fail"] if send_fail else ())
         self._stamp(i, before)
         if not (out and out[-1][0] == "raised"):
             out.append(["sendResult", 1 if r else 0])
+        if st0 is not None:
+            self.cov["send.from_state=%d" % st0] += 1
+        if not r and not any(o[0] == "raised" for o in out):
+            # send() == False means "not sent": nothing of the message may be on the wire or queued for it
+            conn1 = t._connections.get(node)
+            queued = conn1.getSendBufferSize() if conn1 is not None else 0
+            wrote = [x for x in self.fabric.sends if x[2] == "ok"]
+            if queued or wrote:
+                self.extra_viol.append({
+                    "signature": "transport.send:false-but-message-queued",
+                    "what": "transport %d: send(%r) returned False (connection state before: %r) but the message was "
+                            "%s: it travels ahead of / without the handshake" % (
+                                i, key, st0, "written to the socket" if wrote else
+                                "left in the write buffer (%d bytes)" % queued)})
+        if st0 == 2 and not send_fail and heard0 is not None and self.fabric.now - heard0 <= self.timeout and \
+                conn0._TcpConnection__socket is not sk0:
+            self.extra_viol.append({
+                "signature": "transport.timeout:disconnected-while-data-keeps-arriving",
+                "what": "transport %d: send(%r) at t=%d closed the connection as timed out although bytes last arrived on it "
+                        "at t=%d (connectionTimeout %d)" % (i, key, self.fabric.now, heard0, self.timeout)})
         if r:
             # C14 "notifications match the ability to exchange messages" / read timeout: send() must not claim success
             # over a connection whose peer has been completely silent for longer than connectionTimeout
